@@ -348,6 +348,9 @@ func drawWorld06(r *rng.R) *Case {
 		rms = append(rms, rm)
 		c.World.Models = append(c.World.Models, rm.spec)
 	}
+	// a sixth of the worlds run under memory pressure: callers let go of what they do not carry, and a collection with
+	// a finalizer pass follows every call
+	c.World.Collect = r.Chance(1, 6)
 	nt := 1 + r.Intn(3)
 	var order []int
 	for ti := 0; ti < nt; ti++ {
@@ -373,6 +376,14 @@ func drawWorld06(r *rng.R) *Case {
 			}
 			cuts := drawCuts(r, seq)
 			whole, pieces := buildSession(r, rm, mi, seq, batch, cuts)
+			if r.Chance(1, 4) {
+				// this caller carries the state as the slice it got from Data(), wrapped in a new tensor per piece
+				for pi := range pieces {
+					if len(pieces[pi].Carry) > 0 {
+						pieces[pi].CarryBacking = true
+					}
+				}
+			}
 			sess := Session{Task: ti, Model: mi, Kind: rm.cfg.Kind, Whole: whole, Cuts: cuts, Config: rm.cfg.String()}
 			if r.Chance(1, 3) {
 				// stateless start: no initial state for the whole run and the first piece (twin model), carried state after
